@@ -1,6 +1,7 @@
 package core
 
 import (
+	"go/token"
 	"go/types"
 	"sort"
 	"strings"
@@ -145,6 +146,25 @@ func (P *Program) resolveInvoke(cc *ssa.CallCommon, cache map[ifaceKey][]*ssa.Fu
 	if !ok {
 		return nil
 	}
+	// wiring-aware refinement: a call through a keeper field that app/ wires to known
+	// concrete types can only reach those types
+	if concrete, wired := P.wiredTypes(cc.Value); wired {
+		all := P.resolveInvokeCHA(cc, iface, cache)
+		var out []*ssa.Function
+		for _, f := range all {
+			rt := AsNamed(f.Signature.Recv().Type())
+			for _, ct := range concrete {
+				if rt != nil && AsNamed(ct) == rt {
+					out = append(out, f)
+				}
+			}
+		}
+		return out
+	}
+	return P.resolveInvokeCHA(cc, iface, cache)
+}
+
+func (P *Program) resolveInvokeCHA(cc *ssa.CallCommon, iface *types.Interface, cache map[ifaceKey][]*ssa.Function) []*ssa.Function {
 	k := ifaceKey{iface, cc.Method.Name()}
 	if r, ok := cache[k]; ok {
 		return r
@@ -379,6 +399,253 @@ func (P *Program) FindRoots() *Roots {
 			r.Hook = append(r.Hook, fn)
 		}
 	}
+	// Elys values handed to code outside the module as an interface (the commitment keeper
+	// wired into the SDK distribution keeper as its bank keeper, IBC middleware …): the
+	// framework may call every method of that interface on them
+	for _, fn := range P.Funcs {
+		if !strings.HasPrefix(PkgRel(fn), "app") || IsGeneratedOrAux(P.File(fn.Pos())) {
+			continue
+		}
+		for _, b := range fn.Blocks {
+			for _, in := range b.Instrs {
+				c, ok := in.(ssa.CallInstruction)
+				if !ok || c.Common().IsInvoke() {
+					continue
+				}
+				sc := c.Common().StaticCallee()
+				if sc == nil || InModule(sc) {
+					continue
+				}
+				for _, a := range c.Common().Args {
+					mi, ok := a.(*ssa.MakeInterface)
+					if !ok {
+						continue
+					}
+					nt := AsNamed(mi.X.Type())
+					it, isI := mi.Type().Underlying().(*types.Interface)
+					if nt == nil || !isI || nt.Obj().Pkg() == nil || !strings.HasPrefix(nt.Obj().Pkg().Path(), Module) || it.NumMethods() == 0 {
+						continue
+					}
+					if strings.HasSuffix(nt.Obj().Name(), "AppModule") || strings.HasSuffix(nt.Obj().Name(), "AppModuleBasic") {
+						continue // module plumbing is covered by the block / genesis roots
+					}
+					ms := P.SSA.MethodSets.MethodSet(mi.X.Type())
+					for i := 0; i < it.NumMethods(); i++ {
+						sel := ms.Lookup(it.Method(i).Pkg(), it.Method(i).Name())
+						if sel == nil {
+							continue
+						}
+						if mf, ok := sel.Obj().(*types.Func); ok {
+							if f := P.SSA.FuncValue(mf); f != nil && f.Blocks != nil && InModule(f) {
+								r.Hook = append(r.Hook, unwrap(f))
+							}
+						}
+					}
+				}
+			}
+		}
+	}
 	r.Msg, r.Block, r.Hook, r.Upgrade = uniq(r.Msg), uniq(r.Block), uniq(r.Hook), uniq(r.Upgrade)
 	return r
+}
+
+// ---- keeper wiring ---------------------------------------------------------------------
+
+type wireKey struct {
+	typ   *types.Named
+	field string
+}
+
+// wiredTypes: v is a read of field f of a struct S for which every assignment of f in the
+// module stores a constructor/setter parameter and every call site of those constructors
+// passes a value of known concrete type (app/keepers wiring).  Returns those types.
+func (P *Program) wiredTypes(v ssa.Value) ([]types.Type, bool) {
+	w := P.keeperWiring()
+	var S *types.Named
+	var f string
+	switch x := v.(type) {
+	case *ssa.Field:
+		S, f = AsNamed(x.X.Type()), fieldName(x.X.Type(), x.Field)
+	case *ssa.UnOp:
+		if fa, ok := x.X.(*ssa.FieldAddr); ok && x.Op == token.MUL {
+			S, f = AsNamed(fa.X.Type()), fieldName(fa.X.Type(), fa.Field)
+		}
+	}
+	if S == nil {
+		return nil, false
+	}
+	ts, ok := w[wireKey{S, f}]
+	if !ok || ts == nil {
+		return nil, false
+	}
+	return ts, true
+}
+
+func (P *Program) keeperWiring() map[wireKey][]types.Type {
+	if P.wiring != nil {
+		return P.wiring
+	}
+	w := map[wireKey][]types.Type{}
+	unknown := map[wireKey]bool{}
+	type pf struct {
+		fn  *ssa.Function
+		idx int
+	}
+	paramField := map[pf][]wireKey{}
+	for _, fn := range P.Funcs {
+		if IsGeneratedOrAux(P.File(fn.Pos())) {
+			continue
+		}
+		for _, b := range fn.Blocks {
+			for _, in := range b.Instrs {
+				st, ok := in.(*ssa.Store)
+				if !ok {
+					continue
+				}
+				fa, ok := st.Addr.(*ssa.FieldAddr)
+				if !ok {
+					continue
+				}
+				if _, isIface := st.Val.Type().Underlying().(*types.Interface); !isIface {
+					continue
+				}
+				S := AsNamed(fa.X.Type())
+				if S == nil || S.Obj().Pkg() == nil || !strings.HasPrefix(S.Obj().Pkg().Path(), Module) {
+					continue
+				}
+				k := wireKey{S, fieldName(fa.X.Type(), fa.Field)}
+				val := st.Val
+				for {
+					if ci, ok := val.(*ssa.ChangeInterface); ok {
+						val = ci.X
+						continue
+					}
+					break
+				}
+				switch x := val.(type) {
+				case *ssa.Parameter:
+					for i, p := range fn.Params {
+						if p == x {
+							paramField[pf{fn, i}] = append(paramField[pf{fn, i}], k)
+						}
+					}
+				case *ssa.MakeInterface:
+					w[k] = append(w[k], x.X.Type())
+				default:
+					unknown[k] = true
+				}
+			}
+		}
+	}
+	// call sites of the constructors / setters
+	called := map[pf]bool{}
+	var flows [][2]wireKey // dst ← src
+	for _, fn := range P.Funcs {
+		for _, b := range fn.Blocks {
+			for _, in := range b.Instrs {
+				c, ok := in.(ssa.CallInstruction)
+				if !ok || c.Common().IsInvoke() {
+					continue
+				}
+				sc := c.Common().StaticCallee()
+				if sc == nil {
+					continue
+				}
+				sc = unwrap(sc)
+				for i, a := range c.Common().Args {
+					ks := paramField[pf{sc, i}]
+					if len(ks) == 0 {
+						continue
+					}
+					if IsGeneratedOrAux(P.File(fn.Pos())) {
+						continue // test set-ups wire mocks
+					}
+					called[pf{sc, i}] = true
+					val := a
+					for {
+						if ci, ok := val.(*ssa.ChangeInterface); ok {
+							val = ci.X
+							continue
+						}
+						break
+					}
+					if mi, ok := val.(*ssa.MakeInterface); ok {
+						for _, k := range ks {
+							w[k] = append(w[k], mi.X.Type())
+						}
+					} else if cst, ok := val.(*ssa.Const); ok && cst.Value == nil {
+						// nil wiring: nothing reachable through it
+					} else if sk, ok := fieldReadKey(val); ok {
+						// wired from another wired field (app.BankKeeper → keeper.bankKeeper)
+						for _, k := range ks {
+							flows = append(flows, [2]wireKey{k, sk})
+						}
+					} else {
+						for _, k := range ks {
+							unknown[k] = true
+						}
+					}
+				}
+			}
+		}
+	}
+	for p, ks := range paramField {
+		if !called[p] {
+			for _, k := range ks {
+				if len(w[k]) == 0 {
+					unknown[k] = true
+				}
+			}
+		}
+	}
+	// propagate field-to-field wiring to a fixpoint
+	for changed := true; changed; {
+		changed = false
+		for _, fl := range flows {
+			dst, src := fl[0], fl[1]
+			for _, t := range w[src] {
+				have := false
+				for _, x := range w[dst] {
+					if types.Identical(x, t) {
+						have = true
+					}
+				}
+				if !have {
+					w[dst] = append(w[dst], t)
+					changed = true
+				}
+			}
+		}
+	}
+	for changed := true; changed; {
+		changed = false
+		for _, fl := range flows {
+			dst, src := fl[0], fl[1]
+			if (unknown[src] || len(w[src]) == 0) && !unknown[dst] {
+				unknown[dst] = true
+				changed = true
+			}
+		}
+	}
+	for k := range unknown {
+		delete(w, k)
+	}
+	P.wiring = w
+	return w
+}
+
+func fieldReadKey(v ssa.Value) (wireKey, bool) {
+	switch x := v.(type) {
+	case *ssa.Field:
+		if S := AsNamed(x.X.Type()); S != nil {
+			return wireKey{S, fieldName(x.X.Type(), x.Field)}, true
+		}
+	case *ssa.UnOp:
+		if fa, ok := x.X.(*ssa.FieldAddr); ok && x.Op == token.MUL {
+			if S := AsNamed(fa.X.Type()); S != nil {
+				return wireKey{S, fieldName(fa.X.Type(), fa.Field)}, true
+			}
+		}
+	}
+	return wireKey{}, false
 }
